@@ -110,6 +110,46 @@ def recompose(epoch, upstream, revision, omit_empty_revision=False):
 
 
 # ------------------------------------------------------------------------------------------------
+# numeric boundaries: the syntax puts no limit on the length or value of a digit run
+
+def digit_runs(tier="quick"):
+    """Digit runs (strings, in canonical simplest-first order) at the limits of the machine integer types and of
+    round decimal lengths.  The grammar does not know numbers, only digits: every one of them is valid wherever a digit
+    run may stand (epoch, upstream version, a component of it, revision), with any number of leading zeros."""
+    vals = [2 ** 15 - 1, 2 ** 15, 2 ** 16 - 1, 2 ** 16, 10 ** 9 - 1, 10 ** 9, 2 ** 31 - 1, 2 ** 31, 2 ** 32 - 1, 2 ** 32,
+            2 ** 63 - 1, 2 ** 63, 10 ** 19 - 1, 2 ** 64 - 1, 2 ** 64, 10 ** 19, 10 ** 20 - 1]
+    if tier != "quick":
+        for k in (7, 8, 15, 16, 24, 31, 32, 48, 53, 62, 63, 64, 65, 96, 127, 128, 256):
+            vals += [2 ** k - 1, 2 ** k, 2 ** k + 1]
+        for k in (4, 5, 8, 9, 10, 11, 18, 19, 20, 21, 38, 39, 40, 100, 308, 309):
+            vals += [10 ** k - 1, 10 ** k]
+    runs = [str(v) for v in sorted(set(vals))]
+    runs.append("1234567890" * 4)                    # 40 digits
+    if tier != "quick":
+        runs += ["1234567890" * 10, "9" * 1000]      # far below the 4300 digits at which int() / str() give up
+    runs += ["0" * 12 + "1", "0" * 20]               # long runs with a small value
+    return runs
+
+
+def zero_padded(run):
+    return [run, "0" + run, "0" * 10 + run]
+
+
+# (position, template): every %s is replaced by the run
+DIGIT_RUN_TEMPLATES = [
+    ("epoch", "%s:1"), ("upstream", "%s"), ("component", "1.%s"), ("revision", "1-%s"),
+    ("epoch of a full version", "%s:1.0-1"), ("upstream of a full version", "1:%s-1"),
+    ("component of a full version", "1:1.%s~a-1"), ("revision of a full version", "1:2.0-%s"),
+    ("component after a letter", "1.a%s"), ("component of the revision", "1-1.%s"),
+    ("first component", "%s.1"), ("everywhere", "%s:%s.%s-%s"),
+]
+
+
+def digit_run_string(template, run):
+    return template.replace("%s", run)
+
+
+# ------------------------------------------------------------------------------------------------
 # optional cross-check of the recogniser against dpkg's own parser
 
 DPKG = "/usr/bin/dpkg"
